@@ -444,7 +444,7 @@ def gen_bound(rng, size, scalar_p=0.45):
 def gen_request(rng, world, prev=None):
     if prev is not None and rng.random() < 0.75:
         r = dict(prev, bounds=[list(b) for b in prev['bounds']], what=list(prev['what']))
-        op = rng.choice(['repeat', 'scalar', 'scalar', 'scalar', 'what', 'source', 'broadcast', 'range', 'cache'])
+        op = rng.choice(['repeat', 'scalar', 'scalar', 'scalar', 'what', 'source', 'target', 'broadcast', 'range', 'cache'])
         if op == 'scalar':
             sc = [i for i, b in enumerate(r['bounds']) if b[0] == 's']
             if sc:
@@ -457,6 +457,11 @@ def gen_request(rng, world, prev=None):
             r['what'] = rng.choice([['attr', 0], ['attr', 1], ['mask', 0], ['mask', 1]])
         elif op == 'source':
             r['s'] = rng.randrange(world.n)
+        elif op == 'target':
+            # another reference frame with the same number of dimensions, same bounds
+            same_nd = [k for k in range(world.n) if k != r['t'] and len(world.shapes[k]) == len(world.shapes[r['t']])]
+            if same_nd:
+                r['t'] = rng.choice(same_nd)
         elif op == 'broadcast':
             r['broadcast'] = not r['broadcast']
         elif op == 'cache':
